@@ -77,9 +77,12 @@ Fixpoint sbind (acc : list route) (rs : list reg) : list route * option err :=
       end
   end.
 
-(* route groups as given to Server.AddRoutes: optional WithPrefix group, routes *)
-Definition group := (option (list N) * list reg)%type.
+(* route groups as given to Server.AddRoutes(rs, opts...): the WithPrefix groups among the options
+   in the order they are applied (each one replaces every path by path.Join(group, path); the other
+   options - WithTimeout, WithMaxBytes, WithPriority, WithSignature, WithMiddlewares - do not touch
+   method or path), and the caller's routes.  The same route list may be mounted several times. *)
+Definition group := (list (list N) * list reg)%type.
 Definition with_prefix (g : list N) (rs : list reg) : list reg :=
   map (fun r => (fst (fst r), join2 g (snd (fst r)), snd r)) rs.
 Definition engine_routes (gs : list group) : list reg :=
-  flat_map (fun g => match fst g with Some pre => with_prefix pre (snd g) | None => snd g end) gs.
+  flat_map (fun g => fold_left (fun rs pre => with_prefix pre rs) (fst g) (snd g)) gs.
